@@ -430,7 +430,7 @@ func RUnsetPair(c *core.Ctx) {
 				// uses of the group's own capture: embedded Capture, promoted fields and methods of Capture
 				use := false
 				if f := core.FieldOf(info, sel); f != nil {
-					if f.Name() == "Capture" || f.Name() == "RuneIndex" || f.Name() == "RuneLength" {
+					if core.BaseName(f) == "Capture" || core.BaseName(f) == "RuneIndex" || core.BaseName(f) == "RuneLength" {
 						use = true
 					}
 				} else if s := info.Selections[sel]; s != nil && s.Kind() == types.MethodVal {
@@ -494,14 +494,54 @@ func RUnsetPair(c *core.Ctx) {
 		usesSubmatchIndex := false
 		ast.Inspect(fd.Body, func(n ast.Node) bool {
 			if call, ok := n.(*ast.CallExpr); ok {
-				if fn := core.Callee(info, call); fn != nil && strings.Contains(fn.Name(), "SubmatchIndex") && fn.Pkg() != nil && fn.Pkg().Path() == core.PkgCompat {
+				if fn := core.Callee(info, call); fn != nil && strings.Contains(core.BaseName(fn), "SubmatchIndex") && fn.Pkg() != nil && fn.Pkg().Path() == core.PkgCompat {
 					usesSubmatchIndex = true
 				}
 			}
 			return true
 		})
-		if !usesSubmatchIndex || fd.Type.Params == nil {
+		// ... or in a helper that is handed the position table ([]int parameter) and cuts by it
+		takesIntSlice := false
+		if fd.Type.Params != nil {
+			for _, f := range fd.Type.Params.List {
+				if sl, ok := info.TypeOf(f.Type).Underlying().(*types.Slice); ok && types.Identical(sl.Elem(), types.Typ[types.Int]) {
+					takesIntSlice = true
+				}
+			}
+		}
+		if (!usesSubmatchIndex && !takesIntSlice) || fd.Type.Params == nil {
 			continue
+		}
+		// position-valued: an element of an []int, or a local assigned from one
+		fromIntSlice := func(e ast.Expr) bool {
+			isElem := func(x ast.Expr) bool {
+				ie, ok := ast.Unparen(x).(*ast.IndexExpr)
+				if !ok {
+					return false
+				}
+				sl, ok := info.TypeOf(ie.X).Underlying().(*types.Slice)
+				return ok && types.Identical(sl.Elem(), types.Typ[types.Int])
+			}
+			if isElem(e) {
+				return true
+			}
+			id, ok := ast.Unparen(e).(*ast.Ident)
+			if !ok {
+				return false
+			}
+			obj := info.ObjectOf(id)
+			found := false
+			ast.Inspect(fd.Body, func(n ast.Node) bool {
+				if as, ok := n.(*ast.AssignStmt); ok && len(as.Lhs) == len(as.Rhs) {
+					for i, l := range as.Lhs {
+						if lid, ok := l.(*ast.Ident); ok && info.ObjectOf(lid) == obj && isElem(as.Rhs[i]) {
+							found = true
+						}
+					}
+				}
+				return true
+			})
+			return found
 		}
 		params := map[types.Object]bool{}
 		for _, f := range fd.Type.Params.List {
@@ -520,6 +560,9 @@ func RUnsetPair(c *core.Ctx) {
 				return true
 			}
 			if sl, ok := info.TypeOf(id).Underlying().(*types.Slice); !ok || !types.Identical(sl.Elem(), types.Typ[types.Byte]) {
+				return true
+			}
+			if !usesSubmatchIndex && !fromIntSlice(se.Low) {
 				return true
 			}
 			ord++
@@ -855,7 +898,7 @@ func RDialectSib(c *core.Ctx) {
 				return true
 			}
 			fn := core.Callee(info, call)
-			if fn == nil || !strings.HasPrefix(fn.Name(), "use") {
+			if fn == nil || !strings.HasPrefix(core.BaseName(fn), "use") {
 				return true
 			}
 			if sig, ok := fn.Type().(*types.Signature); ok && sig.Recv() != nil && sig.Results().Len() == 1 {
@@ -957,7 +1000,7 @@ func RDialectSib(c *core.Ctx) {
 		for _, st := range in {
 			ast.Inspect(st, func(x ast.Node) bool {
 				if call, ok := x.(*ast.CallExpr); ok {
-					if fn := core.Callee(info, call); fn != nil && (fn.Name() == "addWord" || fn.Name() == "addDigit" || fn.Name() == "addSpace") {
+					if fn := core.Callee(info, call); fn != nil && (core.BaseName(fn) == "addWord" || core.BaseName(fn) == "addDigit" || core.BaseName(fn) == "addSpace") {
 						addCall = call
 					}
 				}
